@@ -86,7 +86,9 @@ class Stats:
             k = h64(key)
             if k not in self.nontrivial:
                 self.nontrivial.add(k)
-                if sample is not None and len(self.samples) < MAX_SAMPLES:
+                # keep the first non-trivial case and then a thin, deterministic selection
+                if sample is not None and len(self.samples) < MAX_SAMPLES and \
+                        (not self.samples or len(self.nontrivial) % 97 == 0):
                     self.samples.append(sample)
 
     def dump(self):
